@@ -299,6 +299,41 @@ def coq_check(cases, tag):
     bad = re.findall(r'\((\d+), \((None|Some (\d+)), (None|Some (\d+))\)\)', m.group(2))
     return [(int(x[0]), None if x[1] == 'None' else int(x[2]), None if x[3] == 'None' else int(x[4])) for x in bad], None
 
+def gather_while_inserting(seed, tier):
+    """gather_to_vector(dest) / gather_to_vector() entered by the idle ranks while one rank is still inserting and is held by
+    back-pressure (few posted receives, rendezvous sends): the call has to return the full multiset."""
+    exe, err = compile_sim('gather_nb', ['harness/gather_nb.cpp'])
+    if exe is None:
+        return [{'what': 'harness/gather_nb.cpp does not compile against the current headers', 'log': err[-1500:]}], 0
+    cfgs = [(2, 2, 1, 1200, 150, 1, 1), (3, 3, 1, 400, 1, 0, 2), (3, 1, 0, 60, 1, 0, 1), (2, 1, 16384, 50, 10, 1, 8)]
+    if tier != 'quick':
+        cfgs += [(n, p, kb, it, per, mode, nir) for (n, p) in ((2, 2), (3, 1), (4, 2), (5, 5)) for kb, it, per in ((1, 2000, 100), (0, 80, 1))
+                 for mode in (0, 1) for nir in (1, 2)]
+    fails, nobs = [], 0
+    for i, (n, ppn, kb, items, per, mode, nir) in enumerate(cfgs):
+        sd = seed * 211 + i
+        r = simrun(exe, n, [items, per, mode], ppn=ppn, seed=sd, policy=['uniform', 'late', 'starve'][i % 3], eager=0, wall=60, spin=400000,
+                   env={'YGM_COMM_BUFFER_SIZE_KB': kb, 'YGM_COMM_NUM_IRECVS': nir, 'YGM_COMM_IRECV_SIZE_KB': 4096})
+        cfg = '%d ranks, %d KB buffer, %d posted receive(s), rank 0 inserts %d items (%s)' % (n, kb, nir, items, 'to the last rank' if mode else 'round robin')
+        if r['verdict'] != 'ok':
+            fails.append({'what': 'gather_to_vector entered while rank 0 is still inserting: run ended with %s %s [%s]' % (r['verdict'], r['detail'], cfg), 'cmd': r['cmd'],
+                          'states': [l for l in r['out'] if l.startswith(('STATE', 'EXIT'))][:8]})
+            continue
+        tot = items * (items - 1) // 2
+        tot2 = tot + sum(items + k for k in range(items))
+        for l in r['out']:
+            t = l.split()
+            if t and t[0] == 'G0':
+                nobs += 1
+                want = (items, tot) if int(t[1]) == 0 else (0, 0)
+                if (int(t[2]), int(t[3])) != want:
+                    fails.append({'what': 'gather_to_vector(0) on rank %s returned %s items (sum %s), the bag holds %d (sum %d) [%s]' % (t[1], t[2], t[3], items, tot, cfg), 'cmd': r['cmd']})
+            elif t and t[0] == 'GA':
+                nobs += 1
+                if (int(t[2]), int(t[3])) != (2 * items, tot2):
+                    fails.append({'what': 'gather_to_vector() on rank %s returned %s items (sum %s), the bag holds %d (sum %d) [%s]' % (t[1], t[2], t[3], 2 * items, tot2, cfg), 'cmd': r['cmd']})
+    return fails, nobs
+
 def evaluate(seed, count, tag='q'):
     rng = random.Random(seed * 7703 + 5)
     hs = [gen_history(rng, i) for i in range(count)]
@@ -331,7 +366,9 @@ def evaluate(seed, count, tag='q'):
                     what.append('tagged-bag item #%d (a returned tag, a visit, or the contents at an observation)' % ti)
                 fails.append({'what': 'Bag.v and the implementation disagree at ' + ' and '.join(what), 'history': text_of(h), 'model': 'coq/Bag.v bstep/tstep evaluated by vm_compute (coq/Gen/Tab_bags_%s.v)' % tag})
     tot = lambda k: sum(s.get(k, 0) for s in stats)
+    gf, gobs = gather_while_inserting(seed, 'quick' if tag == 'q' else 'thorough')
+    fails += gf
     return {'msg': msg, 'failures': fails, 'evaluations': len(hs), 'validated': validated,
-            'stats': {'histories': len(hs), 'observations': tot('obs'), 'tags_returned': tot('tags'), 'swaps': tot('swaps'), 'observations_with_fewer_items_than_ranks': tot('under_ranks'),
+            'stats': {'histories': len(hs), 'gathers_entered_while_a_rank_is_inserting': gobs, 'observations': tot('obs'), 'tags_returned': tot('tags'), 'swaps': tot('swaps'), 'observations_with_fewer_items_than_ranks': tot('under_ranks'),
                       'operations': sum(len(h['ops']) for h in hs), 'ranks': sorted({h['n'] for h in hs})},
             'sample': text_of(hs[0])[:1200] if hs else ''}
